@@ -32,15 +32,15 @@ import (
 // ---- operations (serialisable, so that a child process can execute them)
 
 type c09Op struct {
-	Kind    string // storelog storelogs storeproto delrange set get setu getu first last getlog reopen convert
-	Logs    []c09Log
-	Min     uint64
-	Max     uint64
-	Key     []byte
-	Val     []byte
-	U       uint64
-	Index   uint64
-	Proto   bool // mode for reopen
+	Kind  string // storelog storelogs storeproto delrange set get setu getu first last getlog reopen convert
+	Logs  []c09Log
+	Min   uint64
+	Max   uint64
+	Key   []byte
+	Val   []byte
+	U     uint64
+	Index uint64
+	Proto bool // mode for reopen
 }
 
 type c09Log struct {
